@@ -261,7 +261,7 @@ pub fn run(tier: &str) -> i32 {
         );
     }
     let fam: Vec<(usize, u32, bool)> = if quick {
-        vec![(130, 2, false), (130, 2, true)]
+        vec![(130, 2, false), (130, 2, true), (130, 144, false)]
     } else {
         vec![(230, 2, false), (230, 2, true), (205, 1, true), (330, 144, false)]
     };
@@ -269,7 +269,7 @@ pub fn run(tier: &str) -> i32 {
         long_chain_family(&mut rep, *n, *theta, *pause);
     }
     rep.parts.push(json!({"part": "long-chain family (100-header cap, stable boundary, paused ingestion)", "runs": fam}));
-    rep.rule = "TREE histories with sliced ingestion (budgets 1, 2, unlimited: every pause point of every stabilising block of the explored shapes) and upgrades; in every state all (start, end) with start <= tip+2 and end in {none} U [0, tip+2]; plus a long-chain family probing ranges around the 100-header cap and the stable boundary, with and without a paused ingestion".into();
+    rep.rule = "TREE histories with sliced ingestion (budgets 1, 2, unlimited: every pause point of every stabilising block of the explored shapes) and upgrades; in every state all (start, end) with start <= tip+2 and end in {none} U [0, tip+2]; plus a long-chain family probing ranges around the 100-header cap and the stable boundary, with and without a paused ingestion, also with more than 100 unstable blocks (threshold 144)".into();
     rep.bounds = json!({"tier": tier});
     rep.assume("where several documented errors apply to one request (e.g. start > tip and end < start) any of them is accepted");
     rep.floor("ranges_checked", 100_000);
